@@ -1,4 +1,9 @@
 """Which contract modules carry obligations for which property."""
+_CODECS = ["contracts.at4_ctrl_status"]
 MODULES = {
+    "C03": ["contracts.c06_crc"] + _CODECS,
+    "C04": _CODECS,
+    "C05": _CODECS,
     "C06": ["contracts.c06_crc"],
+    "C17": _CODECS,
 }
